@@ -51,6 +51,35 @@ CHECKS = {
             "Design: exhaustive. Code: DFS reports/descents, Kahn order or panic, components and TopoShortestPath recorded on all 512 small "
             "digraphs and random larger ones, judged against restricted reachability, topological order, mutual-reachability classes and "
             "Bellman-Ford distances.", "DESIGN.md C20"),
+    "C09": ("TLC-enumerated histories of Call/Convert/Redefine steps on shared objects (Lifecycle.tla) replayed on the real code; ContractTrace "
+            "invariants C09 (no user code runs during Redefine) and C09twin (history without its Redefine steps behaves identically)",
+            "Every history up to the bound is replayed on ONE set of real objects; histories containing Redefine are replayed again without those "
+            "steps on fresh objects and TLC demands identical executions and results phase by phase; plus random Redefine scenarios.", "DESIGN.md C09"),
+    "C10": ("TLA+ Contract invariant C10 on convert/call pairs (Convert and Call of func(T) T on identically built object sets) + Resolver model",
+            "Seeded random pairs over concrete and interface target types; TLC checks value/nil/assignability/label of Convert's result and the "
+            "agreement of success with the call twin on well-behaved converter sets.", "DESIGN.md C10"),
+    "C11": ("Lifecycle histories (C11: at most one execution of a run-once function over a whole history) + Once.tla: every interleaving of the "
+            "check/exec/store protocol forced on the real code through gate hooks, adversarial schedules must be infeasible",
+            "Sequential: all histories up to the bound. Concurrent: TLC enumerates every schedule of G goroutines x uses; each is forced on the "
+            "real callDirect with the verif hooks as blocking gates and the observed steps are validated against Once.tla; schedules only the "
+            "lock-free protocol allows must not be followable.", "DESIGN.md C11"),
+    "C12": ("Sharing.tla (access protocol, all interleavings, NoConflict) + real concurrent calls on shared objects under the Go race detector; "
+            "every goroutine's call judged as a phase of one combined log by the Contract invariants",
+            "Design: no conflicting accesses for every sharing configuration. Code: the race detector is the sensor (TLA+ cannot observe memory "
+            "accesses); outcomes of concurrent calls are validated by TLC like sequential ones.", "DESIGN.md C12"),
+    "C14": ("Introspect.tla as executable oracle: TLC enumerates every signature descriptor, the harness builds it by reflection, TLC compares the "
+            "reported value sets / rejection with Expected(desc)",
+            "Exhaustive over the bounded descriptor space (positional lists, marker structs with every tag kind, pointer depth 0-2, error "
+            "positions, mixed/non-function/nil, structs with unexported fields).", "DESIGN.md C14"),
+    "C15": ("ValueSet.tla as executable oracle (Values, lookups, signature round trip) + Contract invariants over scenarios and histories whose "
+            "functions are all assembled with NewValueSet+BuildFunc",
+            "Exhaustive over value lists of length <= 3 (names, casing, subtypes) and lifted sets; built functions are exercised as targets and "
+            "converters in random scenarios and in the Lifecycle histories.", "DESIGN.md C15"),
+    "C16": ("TLA+ Contract invariant C16 on the spec-enumerated option family (duplicate keys in every arrangement, default/call splits, nil values, "
+            "nil option), name casing varied by the harness; Resolver model with option folding",
+            "Exhaustive family; TLC checks which supplied token each parameter received (the last occurrence) and the error on a nil option.", "DESIGN.md C16"),
+    "C17": ("ResultAcc.tla as executable oracle: every result-list descriptor (kinds, nil/non-nil, resolution failure) built by reflection, Len/Out/"
+            "Err compared by TLC with Expected(desc)", "Exhaustive over result lists of length <= 3.", "DESIGN.md C17"),
     "C13": ("TLA+ Contract invariant C13 on real traces", "Structured fields of the unsatisfied-argument error (Args, Inputs, Converters, text) are recorded "
             "and compared by TLC with the scenario.", "DESIGN.md C13"),
 }
